@@ -2,19 +2,25 @@ import SodiumModel.Driver.Common
 import SodiumModel.Model.Stream
 import SodiumModel.Spec.Chacha
 import SodiumModel.Spec.Salsa
+import SodiumModel.Model.CoresRef
+/-
+  The block/core functions passed to the driver models of `Model/Stream.lean` are the C-structured
+  reference models of `Model/CoresRef.lean` (chacha20_ref.c, core_salsa_ref.c, core_hsalsa20_ref2.c,
+  core_hchacha20.c); `Properties/C03Cores.lean` proves them equal to `Spec.Chacha` / `Spec.Salsa`.
+-/
 namespace Sodium.Driver.C03
-open Sodium Sodium.Model Sodium.Driver Sodium.Spec
+open Sodium Sodium.Model Sodium.Driver Sodium.Spec Sodium.Model.CoresRef
 
 /-- ChaCha block function of (w12, w13) for the original layout: w14, w15 from the 8-byte nonce -/
-def chachaB (key nonce8 : Bytes) : BlockFn := fun w12 w13 =>
-  Chacha.blockWords key w12 w13 (Chacha.load32le nonce8) (Chacha.load32le (nonce8.drop 4))
+def chachaB (key nonce8 : Bytes) : BlockFn :=
+  chacha20_blockfn (chacha_ivsetup (chacha_keysetup W16.zero key) nonce8 none)
 
 /-- IETF layout: w13 is the first nonce word (passed through the loop), w14, w15 the rest -/
-def chachaBi (key nonce12 : Bytes) : BlockFn := fun w12 w13 =>
-  Chacha.blockWords key w12 w13 (Chacha.load32le (nonce12.drop 4)) (Chacha.load32le (nonce12.drop 8))
+def chachaBi (key nonce12 : Bytes) : BlockFn :=
+  chacha20_blockfn (chacha_ietf_ivsetup (chacha_keysetup W16.zero key) nonce12 none)
 
 def salsaS (rounds : Nat) (key nonce8 : Bytes) : SalsaBlockFn := fun ctr =>
-  Salsa.core rounds (nonce8.take 8 ++ ctr) key none
+  crypto_core_salsa (nonce8.take 8 ++ ctr) key none rounds
 
 def u64? (s : String) : Option UInt64 := do
   let n ← s.toNat?
@@ -30,11 +36,11 @@ def handle (op : String) (args : List String) : Option String :=
     some (toHex (chacha_xor_ic (chachaB k n) ic m))
   | "stream.chacha20_ietf", [len, n, k] => do
     let len ← parseNat? len; let n ← ofHex n; let k ← ofHex k
-    some (toHex (chacha_ietf_ext_xor_ic (chachaBi k n) (Chacha.load32le n) 0 (zeros len)))
+    some (toHex (chacha_ietf_ext_xor_ic (chachaBi k n) (load32_le n) 0 (zeros len)))
   | "stream.chacha20_ietf_xor_ic", [m, n, ic, k] => do
     let m ← ofHex m; let n ← ofHex n; let ic ← parseNat? ic; let k ← ofHex k
     if ic ≥ 2 ^ 32 then some badArgs else
-    match chacha_ietf_xor_ic (chachaBi k n) (Chacha.load32le n) (UInt32.ofNat ic) m with
+    match chacha_ietf_xor_ic (chachaBi k n) (load32_le n) (UInt32.ofNat ic) m with
     | .misuse => some "misuse"
     | .ok o => some (toHex o)
   | "stream.ietf_guard", [mlen, ic] => do
@@ -43,10 +49,10 @@ def handle (op : String) (args : List String) : Option String :=
     some (if ietfGuardFails (UInt32.ofNat ic) mlen then "misuse" else "proceeds")
   | "stream.xchacha20", [len, n, k] => do
     let len ← parseNat? len; let n ← ofHex n; let k ← ofHex k
-    some (toHex (chacha_stream (chachaB (Chacha.hchacha20 (n.take 16) k none) (n.drop 16)) len))
+    some (toHex (chacha_stream (chachaB (crypto_core_hchacha20 (n.take 16) k none) (n.drop 16)) len))
   | "stream.xchacha20_xor_ic", [m, n, ic, k] => do
     let m ← ofHex m; let n ← ofHex n; let ic ← u64? ic; let k ← ofHex k
-    some (toHex (chacha_xor_ic (chachaB (Chacha.hchacha20 (n.take 16) k none) (n.drop 16)) ic m))
+    some (toHex (chacha_xor_ic (chachaB (crypto_core_hchacha20 (n.take 16) k none) (n.drop 16)) ic m))
   | "stream.salsa20", [len, n, k] => do
     let len ← parseNat? len; let n ← ofHex n; let k ← ofHex k
     some (toHex (salsa_stream (salsaS 20 k n) len))
@@ -67,22 +73,22 @@ def handle (op : String) (args : List String) : Option String :=
     some (toHex (salsa_xor_ic (salsaS 8 k n) 0 m))
   | "stream.xsalsa20", [len, n, k] => do
     let len ← parseNat? len; let n ← ofHex n; let k ← ofHex k
-    some (toHex (salsa_stream (salsaS 20 (Salsa.hsalsa20 (n.take 16) k none) (n.drop 16)) len))
+    some (toHex (salsa_stream (salsaS 20 (crypto_core_hsalsa20 (n.take 16) k none) (n.drop 16)) len))
   | "stream.xsalsa20_xor_ic", [m, n, ic, k] => do
     let m ← ofHex m; let n ← ofHex n; let ic ← u64? ic; let k ← ofHex k
-    some (toHex (salsa_xor_ic (salsaS 20 (Salsa.hsalsa20 (n.take 16) k none) (n.drop 16)) ic m))
+    some (toHex (salsa_xor_ic (salsaS 20 (crypto_core_hsalsa20 (n.take 16) k none) (n.drop 16)) ic m))
   | "core.hchacha20", [inp, k, c] => do
     let inp ← ofHex inp; let k ← ofHex k
     let c ← if c = "N" then some none else (ofHex c).map some
-    some (toHex (Chacha.hchacha20 inp k c))
+    some (toHex (crypto_core_hchacha20 inp k c))
   | "core.hsalsa20", [inp, k, c] => do
     let inp ← ofHex inp; let k ← ofHex k
     let c ← if c = "N" then some none else (ofHex c).map some
-    some (toHex (Salsa.hsalsa20 inp k c))
+    some (toHex (crypto_core_hsalsa20 inp k c))
   | "core.salsa", [r, inp, k, c] => do
     let r ← parseNat? r; let inp ← ofHex inp; let k ← ofHex k
     let c ← if c = "N" then some none else (ofHex c).map some
-    some (toHex (Salsa.core r inp k c))
+    some (toHex (crypto_core_salsa inp k c r))
   | _, _ => none
 
 end Sodium.Driver.C03
